@@ -57,7 +57,7 @@ func EffectiveTransfers(s *chainsim.Step) (ts []*state.Transfer, sts []*state.Si
 
 // nonceMonitor (C03)
 func NonceMonitor(s *chainsim.Step, v func(key, what string)) {
-	pre := Accounts(s.Pre.Leaves)[s.Txn.ClientID]
+	pre := Accounts(s.PreLeaves)[s.Txn.ClientID]
 	post := Accounts(s.Post.Leaves)[s.Txn.ClientID]
 	cls := ActionClass(s.Action.Name)
 	if s.Err == nil {
@@ -75,7 +75,7 @@ func NonceMonitor(s *chainsim.Step, v func(key, what string)) {
 		if p == s.Txn.ClientID {
 			continue
 		}
-		if b := Accounts(s.Pre.Leaves)[p]; b.Nonce != a.Nonce && b.Has {
+		if b := Accounts(s.PreLeaves)[p]; b.Nonce != a.Nonce && b.Has {
 			v("C03:foreign-nonce-changed:"+cls, fmt.Sprintf("nonce of %s changed %d -> %d by a transaction of %s", p, b.Nonce, a.Nonce, s.Txn.ClientID))
 		}
 	}
@@ -86,7 +86,7 @@ func NonceMonitor(s *chainsim.Step, v func(key, what string)) {
 // been rejected with every leaf unchanged.
 func BalanceMonitor(s *chainsim.Step, v func(key, what string)) {
 	cls := ActionClass(s.Action.Name)
-	pre, post := Accounts(s.Pre.Leaves), Accounts(s.Post.Leaves)
+	pre, post := Accounts(s.PreLeaves), Accounts(s.Post.Leaves)
 	if s.Err != nil {
 		if len(s.Diff) > 0 {
 			v("C05:rejected-txn-changed-state:"+cls, fmt.Sprintf("%d leaves changed although the transaction was rejected (%v)", len(s.Diff), s.Err))
@@ -172,7 +172,7 @@ func FailMonitor(s *chainsim.Step, v func(key, what string)) {
 	} else {
 		s.Tag("early-failure:" + cls)
 	}
-	pre, post := Accounts(s.Pre.Leaves), Accounts(s.Post.Leaves)
+	pre, post := Accounts(s.PreLeaves), Accounts(s.Post.Leaves)
 	fee := uint64(s.Txn.Fee)
 	for _, d := range s.Diff {
 		switch {
@@ -220,7 +220,7 @@ func DebitMonitor(w *world.World) chainsim.Monitor {
 			return
 		}
 		cls := ActionClass(s.Action.Name)
-		pre, post := Accounts(s.Pre.Leaves), Accounts(s.Post.Leaves)
+		pre, post := Accounts(s.PreLeaves), Accounts(s.Post.Leaves)
 		_, sts := EffectiveTransfers(s)
 		var ids []string
 		for id := range pre {
